@@ -738,6 +738,14 @@ func (r *Replica) Restore(ctx context.Context, opt RestoreOptions) (err error) {
 	pr, pw := io.Pipe()
 
 	go func() {
+		// The LTX decoder can panic on a file that is cut off shortly before
+		// its end (it slices the trailer off without a length check). A
+		// damaged input must fail the restore, not kill the process.
+		defer func() {
+			if r := recover(); r != nil {
+				_ = pw.CloseWithError(fmt.Errorf("ltx compactor panic: %v", r))
+			}
+		}()
 		c, err := ltx.NewCompactor(pw, rdrs)
 		if err != nil {
 			pw.CloseWithError(fmt.Errorf("new ltx compactor: %w", err))
